@@ -58,3 +58,33 @@ Example strop_complete_bounded_ex :
 Proof.
   unfold shape. repeat split; repeat constructor.
 Qed.
+
+(* ====================== Part 2 and 3: any size ====================== *)
+(* proved in StropSound.v:
+     strop_sound      : forall M inst, wf_matrix M = true -> In inst (instances M) ->
+                        decomp M (trunk inst) (branches inst)
+     decomp_area      : forall M T Bs, wf_matrix M = true -> decomp M T Bs ->
+                        sum (map area (T :: Bs)) = num_cells M
+     strop_rects_area : forall M inst, wf_matrix M = true -> In inst (instances M) ->
+                        sum (map area (rectangles inst)) = num_cells M            *)
+From FrameModel Require Export Strop.StropSound.
+
+(* consequence for any size: is_strop implies that a decomposition exists and that the
+   brute-force test finds it (the converse is the bounded sweep above) *)
+Theorem strop_sound_exists : forall M, wf_matrix M = true -> is_strop M = true ->
+  has_decomp M = true /\ exists T Bs, decomp M T Bs.
+Proof.
+  intros M W H. unfold is_strop in H. destruct (instances M) as [|inst l] eqn:E; [discriminate|].
+  assert (D : decomp M (trunk inst) (branches inst)).
+  { apply strop_sound; [assumption|]. rewrite E. left; reflexivity. }
+  split; [exact (decomp_has_decomp M _ _ D)|]. exists (trunk inst), (branches inst). exact D.
+Qed.
+
+(* the hypotheses of strop_sound are satisfiable: the docstring example of strop.py has two instances *)
+Definition docstring_example : BoolMatrix :=
+  let T := true in let F := false in
+  [[F;F;F;F;F;F;T;T;F;F]; [F;F;F;T;T;F;T;T;F;F]; [F;F;T;T;T;T;T;T;T;F];
+   [T;T;T;T;T;T;T;T;T;T]; [T;T;T;T;T;T;T;T;T;T]; [F;F;T;T;T;T;T;T;T;F]].
+Example strop_sound_ex :
+  wf_matrix docstring_example = true /\ length (instances docstring_example) = 2.
+Proof. split; reflexivity. Qed.
